@@ -41,6 +41,8 @@ def check(m, run):
     keep = lambda c: c in ("_cache['ctrlpts']", "_cache['weights']", "_cache['gridptsw']")
     rs.iv1(m, run, rational, caches_filter=keep)
     rs.iv3_cache_keys(m, run, rational)
+    from .. import skel_drivers as _sdc
+    _sdc.sc2(m, run)       # what the views are derived from is what was assigned (every class, a small precision included)
     run.floor('IV1.no-stale-cache', 200, 'rational classes x entries x 2 caches')
     # the six weight converters are decided exactly on symbolic points (WS6); the rules that read the per-point construction of each
     # converter and compose the extracted coordinate maps corroborate
